@@ -170,7 +170,7 @@ Definition strtoull (s : list byte) : Z * Z * bool :=
 
 (* ------------------------------------------------------------------ guards
    One definition per condition of the C code that a repair may touch.  The comment gives the
-   C text; "repair:" gives the one-line change that corresponds to the minimal C repair. *)
+   C text.  (Five of them were changed together with the C10 `fix:` commits in /repo.) *)
 
 (* (double)INT64_MAX and (double)UINT64_MAX round UP to 2^63 and 2^64 *)
 Definition DBL_INT64_MAX : Z := TWO63.
@@ -184,29 +184,27 @@ Definition gi_dbl_hi (d : dval) : bool := dgt d INT32_MAX.       (* cdouble > IN
 Definition gi_uint_sat (u : Z) : bool := u >=? INT64_MAX.        (* c_uint64 >= INT64_MAX *)
 
 (* json_object_get_int64, case json_type_double *)
-Definition gl_dbl_hi (d : dval) : bool := dgt d DBL_INT64_MAX.   (* c_double > (double)INT64_MAX ; repair: dge *)
+Definition gl_dbl_hi (d : dval) : bool := dge d DBL_INT64_MAX.   (* c_double >= (double)INT64_MAX *)
 Definition gl_dbl_lo (d : dval) : bool := dlt d DBL_INT64_MIN.   (* c_double < (double)INT64_MIN *)
 (* json_object_get_int64, uint64 node *)
 Definition gl_uint_sat (u : Z) : bool := u >? INT64_MAX.         (* c_uint64 > INT64_MAX *)
 
 (* json_object_get_uint64, case json_type_double *)
-Definition gu_dbl_hi (d : dval) : bool := dgt d DBL_UINT64_MAX.  (* c_double > (double)UINT64_MAX ; repair: dge *)
+Definition gu_dbl_hi (d : dval) : bool := dge d DBL_UINT64_MAX.  (* c_double >= (double)UINT64_MAX *)
 Definition gu_dbl_lo (d : dval) : bool := dlt d 0.               (* c_double < 0 *)
 (* json_object_get_uint64, int64 node *)
 Definition gu_int_neg (z : Z) : bool := z <? 0.                  (* c_int64 < 0 *)
 
 (* json_object_int_inc, uint64 node: the magnitude of a negative increment,
-   C: (uint64_t)(-val) — the unary minus is evaluated in int64_t.
-   repair (C: -(uint64_t)val or 0 - (uint64_t)val):  Some (to_u64 (- to_u64 val)) *)
-Definition inc_neg_mag (val : Z) : option Z :=
-  match neg_i64 val with Some n => Some (to_u64 n) | None => None end.
+   C: -(uint64_t)val — negated in uint64_t, defined for every val (INT64_MIN included).
+   (Kept as an option: an int64_t negation here, as the code had before, would be [neg_i64].) *)
+Definition inc_neg_mag (val : Z) : option Z := Some (to_u64 (- to_u64 val)).
 
 (* json_parse_uint64: the hand-written prefix before strtoull.
-   C: while (buf[0] == ' ') buf++;           repair: skip every isspace() byte (fst (skip_space s)) *)
-Fixpoint pu_skip (s : list byte) : list byte :=
-  match s with c :: t => if c =? 32 then pu_skip t else s | [] => s end.
-(* C: if (buf[0] == '-') return 1;  — errno is left at 0 on this path.   repair: EINVAL *)
-Definition pu_minus_errno : errno := E_NONE.
+   C: while (isspace((unsigned char)buf[0])) buf++; *)
+Definition pu_skip (s : list byte) : list byte := fst (skip_space s).
+(* C: if (buf[0] == '-') { errno = EINVAL; return 1; } *)
+Definition pu_minus_errno : errno := EINVAL.
 
 (* ------------------------------------------------------------------ json_util.c *)
 
@@ -220,8 +218,8 @@ Definition json_parse_int64 (s : list byte) : Z * option Z * errno :=
   else (0, out, e).
 
 Definition json_parse_uint64 (s : list byte) : Z * option Z * errno :=
-  let s' := pu_skip s in                                  (* errno = 0; while (buf[0] == ' ') buf++; *)
-  if hd_is 45 s' then (1, None, pu_minus_errno)           (* if (buf[0] == '-') return 1; *)
+  let s' := pu_skip s in                                  (* errno = 0; while (isspace(buf[0])) buf++; *)
+  if hd_is 45 s' then (1, None, pu_minus_errno)           (* if (buf[0] == '-') { errno = EINVAL; return 1; } *)
   else
     let '(val, n, er) := strtoull s' in
     let e := if er then ERANGE else E_NONE in
@@ -372,12 +370,12 @@ Definition int_inc (o : jv) (val : Z) : ires :=
       (* if (val > 0 && c_uint64 > UINT64_MAX - (uint64_t)val) *)
       if (val >? 0) && (u >? (UINT64_MAX - to_u64 val) mod TWO64) then IOk 1 (JUint UINT64_MAX)
       else if val <? 0 then
-        (* else if (val < 0 && c_uint64 < (uint64_t)(-val)) *)
+        (* else if (val < 0 && c_uint64 < -(uint64_t)val) *)
         obind (inc_neg_mag val) (fun nv =>
         if u <? nv then
           obind (add_i64 (u64_to_i64 u) val) (fun r => IOk 1 (JInt r))
         else
-        (* else if (val < 0 && c_uint64 >= (uint64_t)(-val))  c_uint64 -= (uint64_t)(-val) *)
+        (* else if (val < 0 && c_uint64 >= -(uint64_t)val)  c_uint64 -= -(uint64_t)val *)
         obind (inc_neg_mag val) (fun nv2 =>
         if u >=? nv2 then obind (inc_neg_mag val) (fun nv3 => IOk 1 (JUint ((u - nv3) mod TWO64)))
         else IOk 1 (JUint ((u + to_u64 val) mod TWO64))))
